@@ -52,7 +52,7 @@ TABLE = {
                                       'track::Track::update_attributes'], ['C11'],
                                      'the three mutators snapshot and restore the attributes on failure'),
     ('track::Track', 'observations'): (['track::Track::add_observation', 'track::Track::merge',
-                                        'track::Track::get_mut_observations'], ['C11'],
+                                        'track::Track::get_mut_observations'], ['C11', 'C10'],
                                        'the mutators snapshot and restore the observations on failure'),
     ('bbox::Universal2DBox', '_vertex_cache'): (['Universal2DBox::gen_vertices', 'Universal2DBox::rotate_mut'],
                                                 ['C19', 'C14', 'C08'],
